@@ -220,4 +220,5 @@ def run(col, configs, tier):
         guarded(col, X.rule_radix_digit_clamp, facts)
         guarded(col, X.rule_u128_count_chunks, facts)
         guarded(col, X.rule_naive_count_stages, facts)
+        guarded(col, X.rule_zero_exponent_normalised, facts)
         guarded(col, F.rule_entry_validation, facts)
